@@ -348,6 +348,7 @@ class Run:
     async def execute(self):
         gdb = self.gdb
         gdb.run = self
+        gdb.gates = aio.Gates()      # fresh parking places: entity names recur from run to run
         pending = sorted(self.b.shape["tops"])
         tasks = []
         k = 0
